@@ -1289,7 +1289,7 @@ class ConcCtx(BaseCtx):
     """Concrete run of the same harness on plain floats against the untouched code (no stubs installed)."""
     symbolic = False
 
-    def __init__(self, inputs, rtol=1e-9, atol=1e-12):
+    def __init__(self, inputs, rtol=1e-9, atol=0.0):
         super().__init__()
         self.inputs = inputs
         self.rtol, self.atol = rtol, atol
@@ -1494,7 +1494,7 @@ def explore(harness, params, max_paths=256, max_seconds=600.0, solver_timeout_ms
                 pending=len(work))
 
 
-def run_concrete(harness, params, inputs, rtol=1e-9, atol=1e-12):
+def run_concrete(harness, params, inputs, rtol=1e-9, atol=0.0):
     ctx = ConcCtx(inputs, rtol, atol)
     set_ctx(ctx)
     try:
